@@ -38,6 +38,18 @@ def rule_view_extents(ctx):
     lit = [s for bi, si, s in new.stmts(lambda s: s["k"] == "assign" and s["rv"].get("agg") == "adt" and s["rv"].get("adt", "").endswith("MatrixLayout"))]
     if len(lit) != 1:
         raise Inconclusive("MatrixLayout::new: struct literal not found")
+    # the extents argument below is about layouts made by MatrixLayout::<C>::new: no other code may make one (a layout
+    # rebuilt from stored numbers -- a memo, a copy made for another element type -- carries offsets that were not
+    # computed from this C's size and alignment)
+    n_lit = 0
+    for b in facts.bodies_of(M):
+        f2 = fn_of(b)
+        for bi, si, s_ in f2.stmts(lambda s_: s_["k"] == "assign" and s_["rv"].get("agg") == "adt" and s_["rv"].get("adt", "").endswith("MatrixLayout")):
+            n_lit += 1
+            if f2.path != new.path:
+                ctx.violation("%s|MatrixLayout-literal|outside-new" % f2.path, site(f2, bi, si),
+                              "a MatrixLayout is assembled in %s instead of MatrixLayout::new: its offsets are not derived from the element type's layout, so the views carved "
+                              "from it can overlap (a shape computed for 1-byte characters applied to 4-byte ones)" % f2.path)
     names = lit[0]["rv"]["fields"]
     # every scalar field of the layout struct as a polynomial of the constructor's parameters: the view side may
     # use any of them (haystack_len, needle_len, a cached row width, ...)
@@ -411,7 +423,13 @@ def rule_config_only_state(ctx):
     if [f[0] for f in fields] == ["config", "slab"]:
         ctx.ok("Matcher", "state = config + scratch slab")
     else:
-        ctx.fail_closed("Matcher has new fields %s: history independence argument does not cover them" % fields)
+        rule_live_config(ctx, report_unknown=True)
+    slab = facts.adt(M, "matrix::MatrixSlab")
+    sf = [(f["name"], f["ty"]) for f in slab["variants"][0]["fields"]] if slab else []
+    if len(sf) == 1 and "NonNull" in sf[0][1]:
+        ctx.ok("MatrixSlab", "the scratch slab is just the allocation: nothing but cell contents (rewritten by setup before they are read) survives a call")
+    else:
+        ctx.fail_closed("MatrixSlab carries state besides its allocation (%s): a value remembered from an earlier call can influence a later one" % sf)
     for b in facts.bodies_of(M):
         fn = fn_of(b)
         for fld in ("ignore_case", "normalize", "prefer_prefix", "delimiter_chars", "bonus_boundary_white", "bonus_boundary_delimiter", "initial_char_class"):
@@ -433,6 +451,66 @@ def rule_config_only_state(ctx):
                 if any(x in f["ty"] for x in ("Cell<", "RefCell<", "Atomic", "Mutex<", "UnsafeCell<", "OnceLock", "OnceCell")):
                     ctx.violation("%s|field %s|interior-mut" % (a["path"], f["name"]), a["path"], "interior mutability in matcher type %s.%s: results can depend on call history" % (a["path"], f["name"]))
     ctx.ok("crate nucleo_matcher", "no mutable statics, no interior mutability in any type")
+
+
+def rule_live_config(ctx, report_unknown=False):
+    """`Matcher::config` is a public field: callers reconfigure a live matcher by assigning to it (Nucleo::update_config
+    does).  Any other Matcher field whose value is computed from the configuration when the matcher is constructed and
+    that the matching code reads is a cache without an invalidation path: after a reconfiguration part of the matcher
+    follows the old configuration and part the new one.  (C10: result depends on history; C03/C04: the score is no
+    longer the scheme of the current configuration.)"""
+    import json as _json
+    facts = ctx.facts
+    m = facts.adt(M, "Matcher")
+    flds = m["variants"][0]["fields"]
+    extra = [f for f in flds if f["name"] not in ("config", "slab")]
+    cfg_public = any(f["name"] == "config" and f.get("vis") == "Public" for f in flds)
+    if not extra:
+        ctx.ok("Matcher", "no state besides the (public) configuration and the scratch slab: nothing can lag behind a reconfiguration")
+        return
+    for f in extra:
+        name = f["name"]
+        derived = []
+        ctor_sites = 0
+        for b in facts.bodies_of(M):
+            fn = fn_of(b)
+            for bi, si, s_ in fn.stmts(lambda s_: s_["k"] == "assign" and s_["rv"].get("agg") == "adt" and s_["rv"].get("adt") == "Matcher"):
+                ctor_sites += 1
+                names = s_["rv"]["fields"]
+                if name not in names:
+                    continue
+                op_ = s_["rv"]["ops"][names.index(name)]
+                e = fn.expr_of_operand(op_)
+                dep = any((x[0] == "arg" and x[2] == "config") or (x[0] in ("const", "constx", "static") and "Config" in str(x[1:])) or
+                          (x[0] == "call" and "Config" in str(x[1])) for x in walk(e))
+                pl_ = op_.get("move") or op_.get("copy")
+                if not dep and pl_ is not None:
+                    from common import local_sources
+                    ls, ks, cs = local_sources(fn, [pl_["l"]])
+                    dep = any(1 <= l_ <= fn.arg_count and fn.names.get(l_) == "config" for l_ in ls) or any("Config" in k_ for k_ in ks) or any("Config" in c_ for c_ in cs)
+                if dep:
+                    derived.append((fn, bi, si, e))
+        writers = []
+        readers = []
+        for b in facts.bodies_of(M):
+            fn = fn_of(b)
+            for bi, si, s_ in field_assigns(fn, name, "Matcher"):
+                writers.append((fn, bi))
+            js = _json.dumps(b["blocks"])
+            if ('"name": "%s"' % name) in js and fn.path not in ("<Matcher as std::clone::Clone>::clone", "<Matcher as std::fmt::Debug>::fmt"):
+                readers.append(fn.path)
+        key = "Matcher.%s|stale-config-cache" % name
+        if derived and readers and cfg_public and not writers:
+            fn, bi, si, e = derived[0]
+            ctx.violation(key, site(fn, bi, si),
+                          "Matcher.%s is computed from the configuration when the matcher is built (%s) and read by %s, but `Matcher::config` is a public field that callers "
+                          "reassign on a live matcher (Nucleo::update_config): nothing refreshes the cached value, so after a reconfiguration these routines follow the old "
+                          "configuration while the others follow the new one" % (name, show(e)[:70], sorted(set(readers))[:3]))
+        elif not readers:
+            ctx.ok("Matcher.%s" % name, "new field is never read by the matching code")
+        elif report_unknown:
+            ctx.fail_closed("Matcher has a new field `%s` (%s) that the matching code reads%s: the history-independence argument does not cover it" % (
+                name, f["ty"], " and writes" if writers else ""))
 
 
 def rule_owning_pointers(ctx):
